@@ -4,11 +4,265 @@ import SaModel.Spec.Interp
 C04, injectivity of the Rust → Arrow mapping, first half: the documented mapping (`Spec.interpDT`, the very function
 the `build` / `roundtrip` drivers compare the implementation's arrays with) sends the serialization of a well-typed
 value at its traced field to the type-directed logical value:
-      interpDT ext dt nb md (ser t v) = ok (lv t v)        where (dt, nb₀, md) = mappingDT o t and nb₀ → nb.
+      interpDT ext dt nb md (ser t v) = ok (lv t v)        where (dt, nb₀, md) = mappingDT o t and nb₀ → nb,
+for every option set `o`, provided no `None` sits at a Union position (documented exclusion).
+Proved for the fragment `frag` (see its definition); structurally recursive on the value.
 -/
 namespace SaModel.Roundtrip
 open SaModel SaModel.Build SaModel.Spec
 
 theorem boolInt_ne_zero (b : Bool) : (boolInt b != 0) = b := by cases b <;> decide
+
+theorem strategyOf_nil : strategyOf [] = none := rfl
+
+theorem isUnknownVariant_nil (dt : DataType) : isUnknownVariant dt [] = false := by
+  cases dt <;> simp [isUnknownVariant, strategyOf_nil]
+
+theorem isUnknownVariant_struct (fs : Fields) (md : Metadata) : isUnknownVariant (.struct fs) md = false := rfl
+
+/-- the mapping never produces the `UnknownVariant` placeholder -/
+theorem unknown_mapping (o : TraceOpts) : ∀ (t : Ty) (dt : DataType) (nb : Bool) (md : Metadata),
+    mappingDT o t = (dt, nb, md) → isUnknownVariant dt md = false
+  | .prim p, dt, nb, md, h => by
+    simp [mappingDT] at h; obtain ⟨_, _, rfl⟩ := h; exact isUnknownVariant_nil _
+  | .unit, dt, nb, md, h => by
+    simp [mappingDT] at h; obtain ⟨_, _, rfl⟩ := h; exact isUnknownVariant_nil _
+  | .unitStruct _, dt, nb, md, h => by
+    simp [mappingDT] at h; obtain ⟨_, _, rfl⟩ := h; exact isUnknownVariant_nil _
+  | .option t, dt, nb, md, h => by
+    rcases hm : mappingDT o t with ⟨dt', nb', md'⟩
+    simp [mappingDT, hm] at h; obtain ⟨rfl, _, rfl⟩ := h
+    exact unknown_mapping o t _ _ _ hm
+  | .newtype _ t, dt, nb, md, h => by
+    simp [mappingDT] at h
+    exact unknown_mapping o t _ _ _ h
+  | .vec t, dt, nb, md, h => by
+    simp [mappingDT] at h; obtain ⟨_, _, rfl⟩ := h; exact isUnknownVariant_nil _
+  | .tuple ts, dt, nb, md, h => by
+    simp [mappingDT] at h; obtain ⟨rfl, _, _⟩ := h; rfl
+  | .tupleStruct _ ts, dt, nb, md, h => by
+    simp [mappingDT] at h; obtain ⟨rfl, _, _⟩ := h; rfl
+  | .struct _ fs, dt, nb, md, h => by
+    simp [mappingDT] at h; obtain ⟨rfl, _, _⟩ := h; rfl
+  | .enum _ vars, dt, nb, md, h => by
+    simp [mappingDT] at h
+    split at h <;> (simp at h; obtain ⟨_, _, rfl⟩ := h; exact isUnknownVariant_nil _)
+  | .map k v, dt, nb, md, h => by
+    simp [mappingDT] at h; obtain ⟨_, _, rfl⟩ := h; exact isUnknownVariant_nil _
+
+theorem interpNull_ok (dt : DataType) (md : Metadata) (hu : isUnknownVariant dt md = false) (hn : isUnion dt = false) :
+    interpNull dt true md = .ok .null := by
+  unfold interpNull
+  simp only [hu]
+  cases dt <;> simp_all [isUnion]
+
+
+theorem LVals.ofList_toList : ∀ (l : LVals), LVals.ofList l.toList = l
+  | .nil => rfl
+  | .cons v r => by simp [LVals.toList, LVals.ofList, LVals.ofList_toList r]
+
+theorem LEntries.ofList_toList : ∀ (l : LEntries), LEntries.ofList l.toList = l
+  | .nil => rfl
+  | .cons k v r => by simp [LEntries.toList, LEntries.ofList, LEntries.ofList_toList r]
+
+/-- the fragment of the grammar for which `interp_ser` is proved -/
+def frag : Ty → Bool
+  | .prim _ | .unit | .unitStruct _ => true
+  | .option t | .newtype _ t | .vec t => frag t
+  | .map k v => frag k && frag v
+  | _ => false
+
+theorem interp_prim (ext : Ext) (o : TraceOpts) (p : Prim) (v : Val) (nb : Bool) (h : p.wt v = true) :
+    interpDT ext (primDT o p) nb [] (ser (.prim p) v) = .ok (lv (.prim p) v) := by
+  cases p with
+  | bool =>
+    cases v <;> simp [Prim.wt] at h
+    simp [ser, lv, primDT, interpDT, isUnknownVariant, interpScalar, convLeaf, boolInt_ne_zero, bind, Except.bind, pure, Except.pure]
+  | int t =>
+    cases v <;> simp [Prim.wt] at h
+    cases t <;> simp [ser, lv, primDT, intDT, interpDT, isUnknownVariant, interpScalar, convLeaf, tryInto, h, bind, Except.bind, pure, Except.pure]
+  | f32 =>
+    cases v <;> simp [Prim.wt] at h
+    simp [ser, lv, primDT, interpDT, isUnknownVariant, interpScalar, convLeaf, bind, Except.bind, pure, Except.pure]
+  | f64 =>
+    cases v <;> simp [Prim.wt] at h
+    simp [ser, lv, primDT, interpDT, isUnknownVariant, interpScalar, convLeaf, bind, Except.bind, pure, Except.pure]
+  | char =>
+    cases v <;> simp [Prim.wt] at h
+    rename_i c
+    have hr : IntTy.u32.inRange (c : Int) = true := by
+      have h1 : (0 : Int) ≤ c := by omega
+      have h2 : (c : Int) ≤ 4294967295 := by omega
+      simp [IntTy.inRange, IntTy.min, IntTy.max, h1, h2]
+    simp [ser, lv, primDT, interpDT, isUnknownVariant, interpScalar, convLeaf, tryInto, hr, bind, Except.bind, pure, Except.pure]
+  | str =>
+    cases v <;> simp [Prim.wt] at h
+    simp only [ser, lv, primDT, strDT]
+    by_cases hd : o.stringDictionaryEncoding = true <;> by_cases hl : o.stringsAsLargeUtf8 = true <;>
+      simp [hd, hl, interpDT, isUnknownVariant, interpScalar, scalarToString, strBytes]
+  | bytes =>
+    cases v <;> simp [Prim.wt] at h
+    simp [ser, lv, primDT, interpDT, isUnknownVariant, interpScalar]
+
+
+mutual
+theorem interp_ser (ext : Ext) (o : TraceOpts) : ∀ (t : Ty) (v : Val) (nb : Bool) (dt : DataType) (nb0 : Bool) (md : Metadata),
+    frag t = true → wt t v = true → mappingDT o t = (dt, nb0, md) → (nb0 = true → nb = true) →
+    noneAtUnion dt (ser t v) = false →
+    interpDT ext dt nb md (ser t v) = .ok (lv t v)
+  | t, .bool b, nb, dt, nb0, md, hf, hw, hm, hnb, hx => by
+    cases t with
+    | prim p =>
+      simp only [mappingDT, Prod.mk.injEq] at hm; obtain ⟨rfl, rfl, rfl⟩ := hm
+      exact interp_prim ext o p _ nb (by simpa [wt] using hw)
+    | _ => simp [wt] at hw
+  | t, .int x, nb, dt, nb0, md, hf, hw, hm, hnb, hx => by
+    cases t with
+    | prim p =>
+      simp only [mappingDT, Prod.mk.injEq] at hm; obtain ⟨rfl, rfl, rfl⟩ := hm
+      exact interp_prim ext o p _ nb (by simpa [wt] using hw)
+    | _ => simp [wt] at hw
+  | t, .f32 x, nb, dt, nb0, md, hf, hw, hm, hnb, hx => by
+    cases t with
+    | prim p =>
+      simp only [mappingDT, Prod.mk.injEq] at hm; obtain ⟨rfl, rfl, rfl⟩ := hm
+      exact interp_prim ext o p _ nb (by simpa [wt] using hw)
+    | _ => simp [wt] at hw
+  | t, .f64 x, nb, dt, nb0, md, hf, hw, hm, hnb, hx => by
+    cases t with
+    | prim p =>
+      simp only [mappingDT, Prod.mk.injEq] at hm; obtain ⟨rfl, rfl, rfl⟩ := hm
+      exact interp_prim ext o p _ nb (by simpa [wt] using hw)
+    | _ => simp [wt] at hw
+  | t, .char x, nb, dt, nb0, md, hf, hw, hm, hnb, hx => by
+    cases t with
+    | prim p =>
+      simp only [mappingDT, Prod.mk.injEq] at hm; obtain ⟨rfl, rfl, rfl⟩ := hm
+      exact interp_prim ext o p _ nb (by simpa [wt] using hw)
+    | _ => simp [wt] at hw
+  | t, .str x, nb, dt, nb0, md, hf, hw, hm, hnb, hx => by
+    cases t with
+    | prim p =>
+      simp only [mappingDT, Prod.mk.injEq] at hm; obtain ⟨rfl, rfl, rfl⟩ := hm
+      exact interp_prim ext o p _ nb (by simpa [wt] using hw)
+    | _ => simp [wt] at hw
+  | t, .bytes x, nb, dt, nb0, md, hf, hw, hm, hnb, hx => by
+    cases t with
+    | prim p =>
+      simp only [mappingDT, Prod.mk.injEq] at hm; obtain ⟨rfl, rfl, rfl⟩ := hm
+      exact interp_prim ext o p _ nb (by simpa [wt] using hw)
+    | _ => simp [wt] at hw
+  | t, .unit, nb, dt, nb0, md, hf, hw, hm, hnb, hx => by
+    cases t with
+    | prim p => cases p <;> simp [wt, Prim.wt] at hw
+    | unit =>
+      simp only [mappingDT, Prod.mk.injEq] at hm; obtain ⟨rfl, rfl, rfl⟩ := hm
+      simp [ser, lv, interpDT, interpNull, isUnknownVariant, strategyOf_nil]
+    | unitStruct n =>
+      simp only [mappingDT, Prod.mk.injEq] at hm; obtain ⟨rfl, rfl, rfl⟩ := hm
+      simp [ser, lv, interpDT, interpScalar, isUnknownVariant, strategyOf_nil]
+    | _ => simp [wt] at hw
+  | t, .none, nb, dt, nb0, md, hf, hw, hm, hnb, hx => by
+    cases t with
+    | prim p => cases p <;> simp [wt, Prim.wt] at hw
+    | option t' =>
+      rcases hm' : mappingDT o t' with ⟨dt', nb', md'⟩
+      simp only [mappingDT, hm', Prod.mk.injEq] at hm; obtain ⟨rfl, rfl, rfl⟩ := hm
+      have hnb' : nb = true := hnb rfl
+      subst hnb'
+      simp only [ser, noneAtUnion] at hx
+      simp only [ser, lv, interpDT]
+      exact interpNull_ok _ _ (unknown_mapping o t' _ _ _ hm') hx
+    | _ => simp [wt] at hw
+  | t, .some v, nb, dt, nb0, md, hf, hw, hm, hnb, hx => by
+    cases t with
+    | prim p => cases p <;> simp [wt, Prim.wt] at hw
+    | option t' =>
+      rcases hm' : mappingDT o t' with ⟨dt', nb', md'⟩
+      simp only [mappingDT, hm', Prod.mk.injEq] at hm; obtain ⟨rfl, rfl, rfl⟩ := hm
+      have hnb' : nb = true := hnb rfl
+      simp only [ser, noneAtUnion] at hx
+      simp only [ser, lv, interpDT]
+      exact interp_ser ext o t' v nb _ _ _ (by simpa [frag] using hf) (by simpa [wt] using hw) hm' (fun _ => hnb') hx
+    | _ => simp [wt] at hw
+  | t, .newtype v, nb, dt, nb0, md, hf, hw, hm, hnb, hx => by
+    cases t with
+    | prim p => cases p <;> simp [wt, Prim.wt] at hw
+    | newtype n t' =>
+      simp only [mappingDT] at hm
+      simp only [ser, noneAtUnion] at hx
+      simp only [ser, lv, interpDT]
+      exact interp_ser ext o t' v nb _ _ _ (by simpa [frag] using hf) (by simpa [wt] using hw) hm hnb hx
+    | _ => simp [wt] at hw
+  | t, .vec vs, nb, dt, nb0, md, hf, hw, hm, hnb, hx => by
+    cases t with
+    | prim p => cases p <;> simp [wt, Prim.wt] at hw
+    | vec t' =>
+      rcases hm' : mappingDT o t' with ⟨dt', nb', md'⟩
+      simp only [mappingDT, hm', Prod.mk.injEq] at hm; obtain ⟨rfl, rfl, rfl⟩ := hm
+      have ih := interp_serAll ext o t' vs dt' nb' md' (by simpa [frag] using hf) (by simpa [wt] using hw) hm'
+      by_cases hl : o.sequenceAsLargeList = true
+      · simp only [ser, hl, if_true, noneAtUnion] at hx
+        have ih' := ih hx
+        simp [ser, lv, hl, interpDT, isUnknownVariant, ih', bind, Except.bind, pure, Except.pure, LVals.ofList_toList]
+      · simp only [ser, hl, noneAtUnion] at hx
+        have ih' := ih hx
+        simp [ser, lv, hl, interpDT, isUnknownVariant, ih', bind, Except.bind, pure, Except.pure, LVals.ofList_toList]
+    | _ => simp [wt] at hw
+  | t, .map es, nb, dt, nb0, md, hf, hw, hm, hnb, hx => by
+    cases t with
+    | prim p => cases p <;> simp [wt, Prim.wt] at hw
+    | map k v =>
+      rcases hk : mappingDT o k with ⟨kdt, knb, kmd⟩
+      rcases hv : mappingDT o v with ⟨vdt, vnb, vmd⟩
+      simp only [mappingDT, hk, hv, Prod.mk.injEq] at hm; obtain ⟨rfl, rfl, rfl⟩ := hm
+      simp only [frag, Bool.and_eq_true] at hf
+      simp only [ser, noneAtUnion] at hx
+      have ih := interp_serEntries ext o k v es kdt knb kmd vdt vnb vmd hf.1 hf.2 (by simpa [wt] using hw) hk hv hx
+      simp [ser, lv, interpDT, isUnknownVariant, ih, bind, Except.bind, pure, Except.pure, LEntries.ofList_toList]
+    | _ => simp [wt] at hw
+  | t, .tuple vs, nb, dt, nb0, md, hf, hw, hm, hnb, hx => by
+    cases t with
+    | prim p => cases p <;> simp [wt, Prim.wt] at hw
+    | tuple ts => simp [frag] at hf
+    | tupleStruct n ts => simp [frag] at hf
+    | _ => simp [wt] at hw
+  | t, .struct vs, nb, dt, nb0, md, hf, hw, hm, hnb, hx => by
+    cases t with
+    | prim p => cases p <;> simp [wt, Prim.wt] at hw
+    | struct n fs => simp [frag] at hf
+    | _ => simp [wt] at hw
+  | t, .variant i p, nb, dt, nb0, md, hf, hw, hm, hnb, hx => by
+    cases t with
+    | prim p => cases p <;> simp [wt, Prim.wt] at hw
+    | enum n vars => simp [frag] at hf
+    | _ => simp [wt] at hw
+
+theorem interp_serAll (ext : Ext) (o : TraceOpts) : ∀ (t : Ty) (vs : Vals) (dt : DataType) (nb0 : Bool) (md : Metadata),
+    frag t = true → wtAll t vs = true → mappingDT o t = (dt, nb0, md) →
+    noneAtUnionAll dt (serAll t vs) = false →
+    interpAll ext dt nb0 md (serAll t vs) = .ok (lvAll t vs).toList
+  | t, .nil, dt, nb0, md, _, _, _, _ => by simp [serAll, lvAll, interpAll, LVals.toList]
+  | t, .cons v rest, dt, nb0, md, hf, hw, hm, hx => by
+    simp only [wtAll, Bool.and_eq_true] at hw
+    simp only [serAll, noneAtUnionAll, Bool.or_eq_false_iff] at hx
+    have h1 := interp_ser ext o t v nb0 dt nb0 md hf hw.1 hm (fun h => h) hx.1
+    have h2 := interp_serAll ext o t rest dt nb0 md hf hw.2 hm hx.2
+    simp [serAll, lvAll, interpAll, LVals.toList, h1, h2, bind, Except.bind, pure, Except.pure]
+
+theorem interp_serEntries (ext : Ext) (o : TraceOpts) : ∀ (k v : Ty) (es : VEntries)
+    (kdt : DataType) (knb : Bool) (kmd : Metadata) (vdt : DataType) (vnb : Bool) (vmd : Metadata),
+    frag k = true → frag v = true → wtEntries k v es = true → mappingDT o k = (kdt, knb, kmd) → mappingDT o v = (vdt, vnb, vmd) →
+    noneAtUnionEntries kdt vdt (serEntries k v es) = false →
+    interpEntries ext kdt knb kmd vdt vnb vmd (serEntries k v es) = .ok (lvEntries k v es).toList
+  | k, v, .nil, _, _, _, _, _, _, _, _, _, _, _, _ => by simp [serEntries, lvEntries, interpEntries, LEntries.toList]
+  | k, v, .cons a b rest, kdt, knb, kmd, vdt, vnb, vmd, hfk, hfv, hw, hk, hv, hx => by
+    simp only [wtEntries, Bool.and_eq_true] at hw
+    simp only [serEntries, noneAtUnionEntries, Bool.or_eq_false_iff] at hx
+    have h1 := interp_ser ext o k a knb kdt knb kmd hfk hw.1.1 hk (fun h => h) hx.1.1
+    have h2 := interp_ser ext o v b vnb vdt vnb vmd hfv hw.1.2 hv (fun h => h) hx.1.2
+    have h3 := interp_serEntries ext o k v rest kdt knb kmd vdt vnb vmd hfk hfv hw.2 hk hv hx.2
+    simp [serEntries, lvEntries, interpEntries, LEntries.toList, h1, h2, h3, bind, Except.bind, pure, Except.pure]
+end
 
 end SaModel.Roundtrip
